@@ -96,7 +96,7 @@ WouldRender(t) ==
 FrameRes(num, t, rendered) ==
   [res |-> "frame", num |-> num, dur |-> EffDur(t.dur, num), size |-> t.size,
    margins |-> PadDims(t.pad, t.size), psize |-> PaddedSize(t.pad, t.size),
-   args |-> t.args, rendered |-> rendered, seek |-> <<>>]
+   args |-> t.args, rendered |-> rendered, seek |-> <<>>, inner |-> ""]
 
 NextDef(t) ==
   \* returns <<t', result>>
@@ -169,6 +169,14 @@ Next_ == Do([name |-> "next"], DoNext(s))
 NextFails == \E kind \in {"exc", "stop"} :
                /\ WouldRender(s)
                /\ Do([name |-> "next_fails", kind |-> kind], DoNextFails(s, kind))
+\* close() called re-entrantly while a frame of this very iterator is being rendered (from the
+\* renderable, or from another thread): it is rejected (the generator is executing) and must
+\* leave the iterator fully usable - in particular NOT marked closed
+NextReclose ==
+  /\ WouldRender(s)
+  /\ LET pair == DoNext(s) IN
+       Do([name |-> "next_reclose"],
+          <<pair[1], IF pair[2].res = "frame" THEN [pair[2] EXCEPT !.inner = "ValueError"] ELSE pair[2]>>)
 Seek == \E o \in SeekOffs, wh \in Whences :
           Do([name |-> "seek", off |-> o, whence |-> wh], DoSeek(s, o, wh))
 SetDuration == \E d \in Durs \cup {0} :
@@ -186,7 +194,7 @@ Drop == /\ ~s.closed
 Init == /\ s \in InitStates
         /\ out = [op |-> [name |-> "init"], r |-> [res |-> "ok"]]
         /\ PrintT(<<"INIT", ToJson(s)>>)
-Next == ~s.dropped /\ (Next_ \/ NextFails \/ Seek \/ SetDuration \/ SetPadding \/ SetArgs \/ SetSize \/ Close \/ Drop)
+Next == ~s.dropped /\ (Next_ \/ NextFails \/ NextReclose \/ Seek \/ SetDuration \/ SetPadding \/ SetArgs \/ SetSize \/ Close \/ Drop)
 Spec == Init /\ [][Next]_vars
 
 Bound == TLCGet("level") <= MaxDepth
@@ -207,7 +215,7 @@ FinalizeOnce == s.fin <= 1
 FinalizeIffClosedAndOwned == s.fin = (IF s.closed /\ s.own = "iter" THEN 1 ELSE 0)
 
 \* C08: a seek never consumes a loop; rejected operations change nothing
-IsOp(n) == out'.op.name = n
+IsOp(n) == out'.op.name = n \/ (n = "next" /\ out'.op.name = "next_reclose")
 SeekNoLoop == [][IsOp("seek") => s'.loop = s.loop /\ s'.closed = s.closed]_vars
 RejectedChangesNothing ==
   [][(out'.r.res \in {"ValueError", "FinalizedIteratorError", "IncompatibleRenderArgsError",
